@@ -2,6 +2,7 @@ import json
 import logging
 import os
 import time
+import uuid
 from pathlib import PurePath
 from typing import Any, Optional, List, Union, Dict
 from collections import OrderedDict
@@ -201,15 +202,20 @@ class LocalFileStore(Store):
             STU.from_type(type(blob)), codec
         )
         p = os.path.join(self._root, "blobs", key)
+        # The content is first written under a temporary name and then moved in place atomically, so that
+        # a concurrent reader or an interrupted writer never exposes a partial blob.
+        tmp_p = f"{p}.{_unique_suffix()}.tmp"
         if isinstance(protocol, CodecProtocol):
-            protocol.serialize_into(blob, GenericLocation(p))
+            protocol.serialize_into(blob, GenericLocation(tmp_p))
         elif isinstance(protocol, FileCodecProtocol):
-            # This is the local file system, we can directly copy the file to its final destination
-            protocol.serialize_into(blob, PurePath(p))
+            protocol.serialize_into(blob, PurePath(tmp_p))
         else:
             raise DDSException(f"Wrong protocol type: {type(protocol)} {protocol}")
+        os.replace(tmp_p, p)
+        # The metadata comes last: its presence means that the blob is complete.
         meta_p = os.path.join(self._root, "blobs", key + ".meta")
-        with open(meta_p, "wb") as f:
+        tmp_meta_p = f"{meta_p}.{_unique_suffix()}.tmp"
+        with open(tmp_meta_p, "wb") as f:
             f.write(
                 json.dumps(
                     {
@@ -218,11 +224,13 @@ class LocalFileStore(Store):
                     }
                 ).encode("utf-8")
             )
+        os.replace(tmp_meta_p, meta_p)
         _logger.debug(f"Committed new blob in {key}")
 
     def has_blob(self, key: PyHash) -> bool:
         p = os.path.join(self._root, "blobs", key)
-        return os.path.exists(p)
+        meta_p = os.path.join(self._root, "blobs", key + ".meta")
+        return os.path.exists(p) and os.path.exists(meta_p)
 
     def _path_location(self, path: DDSPath) -> str:
         """
@@ -277,6 +285,11 @@ class LocalFileStore(Store):
 
     def codec_registry(self) -> CodecRegistry:
         return codec_registry()
+
+
+def _unique_suffix() -> str:
+    """A suffix for temporary files that is unique across processes and calls."""
+    return f"{os.getpid()}.{uuid.uuid4().hex}"
 
 
 def current_timestamp() -> int:
